@@ -110,9 +110,11 @@ Section G.
   (* sparse.moveaxis(a, source, destination) = a.transpose(order) *)
   Definition gcxs_moveaxis (g : gcxs V) (source destination : axarg) : res (gcxs V) :=
     let nd := gndim g in
+    if negb s_moveaxis_normalize_first && has_dup (ax_list destination) then Raise ValueError else
     src <- norm_axes nd (ax_list source) ;;
     dst <- norm_axes nd (ax_list destination) ;;
-    if negb (length src =? length dst)%nat then Raise ValueError
+    if s_moveaxis_normalize_first && has_dup dst then Raise ValueError
+    else if negb (length src =? length dst)%nat then Raise ValueError
     else gcxs_transpose g (Some (moveaxis_order nd src dst)).
 
   (* ------------------------------------------------------------ reshape *)
